@@ -148,10 +148,10 @@ def gamma_UNIFAC(x, T, interactions,
                                         Qs, psis,
                                         chem_Qfractions,
                                         group_psis)
-        for i, j in enumerate(index): 
-            value = gamma_sub[i]
-            if np.isnan(value): continue
-            gamma[j] = value
+            for i, j in enumerate(index): 
+                value = gamma_sub[i]
+                if np.isnan(value): continue
+                gamma[j] = value
     return gamma
 
 @njit(cache=True)
@@ -174,10 +174,10 @@ def gamma_modified_UNIFAC(x, T, interactions,
                                         Qs, psis,
                                         chem_Qfractions,
                                         group_psis)
-        for i, j in enumerate(index): 
-            value = gamma_sub[i]
-            if np.isnan(value): continue
-            gamma[j] = value
+            for i, j in enumerate(index): 
+                value = gamma_sub[i]
+                if np.isnan(value): continue
+                gamma[j] = value
     return gamma
     
     
